@@ -98,7 +98,24 @@ func Mutate(r *rand.Rand, s string) string {
 			continue
 		}
 		p := r.Intn(len(s) + 1)
-		switch r.Intn(8) {
+		switch r.Intn(10) {
+		case 8: // delete one word (identifier, keyword or number)
+			if ws := wordSpans(s); len(ws) > 0 {
+				w := ws[r.Intn(len(ws))]
+				s = s[:w[0]] + s[w[1]:]
+			}
+		case 9: // replace one word by another word of the text or a keyword
+			if ws := wordSpans(s); len(ws) > 0 {
+				w := ws[r.Intn(len(ws))]
+				var by string
+				if r.Intn(2) == 0 {
+					o := ws[r.Intn(len(ws))]
+					by = s[o[0]:o[1]]
+				} else {
+					by = Tokens[r.Intn(14)]
+				}
+				s = s[:w[0]] + by + s[w[1]:]
+			}
 		case 0: // insert token
 			s = s[:p] + Tokens[r.Intn(len(Tokens))] + s[p:]
 		case 1: // delete span
@@ -138,4 +155,21 @@ func Mutate(r *rand.Rand, s string) string {
 		}
 	}
 	return s
+}
+
+// wordSpans returns the [start,end) byte spans of the identifier-like words of s.
+func wordSpans(s string) [][2]int {
+	var out [][2]int
+	start := -1
+	for i := 0; i <= len(s); i++ {
+		isW := i < len(s) && (s[i] == '_' || s[i] == '.' || s[i] >= '0' && s[i] <= '9' || s[i] >= 'a' && s[i] <= 'z' || s[i] >= 'A' && s[i] <= 'Z')
+		if isW && start < 0 {
+			start = i
+		}
+		if !isW && start >= 0 {
+			out = append(out, [2]int{start, i})
+			start = -1
+		}
+	}
+	return out
 }
